@@ -274,7 +274,8 @@ def run(ctx):
     for _ in range(25):
         w1, v1 = phys_spectrum(rng)
         w2, v2 = phys_spectrum(rng)
-        u1, u2 = rng.choice((('nm', 'um'), ('um', 'nm'), ('nm', 'angstrom'), ('angstrom', 'um')))
+        # (operands in the SAME unit are not converted, hence not copied, before they are sampled)
+        u1, u2 = rng.choice((('nm', 'um'), ('um', 'nm'), ('nm', 'angstrom'), ('angstrom', 'um'), ('nm', 'nm'), ('um', 'um'), ('nm', 'nm')))
         a = make_real(lentil, w1, v1, u1)
         b = make_real(lentil, w2, [float(x) for x in v2] and v2, u2)
         b = lentil.radiometry.Spectrum(np.asarray(b.wave, dtype=float), np.asarray(b.value, dtype=float), waveunit=u2, valueunit=None)
@@ -282,9 +283,13 @@ def run(ctx):
         ctx.case(('operand-edited-between-uses', op, u1, u2, str(w1), str(w2)))
         try:
             getattr(a, op)(b)                                  # first use
-            edit = rng.choice(('value-in-place', 'waveunit-label')) if u2 in ('nm', 'angstrom') else 'value-in-place'
+            edit = rng.choice(('value-in-place', 'waveunit-label')) if (u2 in ('nm', 'angstrom') and u1 != u2) else rng.choice(('value-in-place', 'value-scaled-in-place', 'wave-shifted-in-place'))
             if edit == 'value-in-place':
                 b.value[len(b.value) // 2:] = 0.25
+            elif edit == 'value-scaled-in-place':
+                b.value *= 2.0
+            elif edit == 'wave-shifted-in-place':
+                b.wave += (b.wave[1] - b.wave[0]) / 4
             else:
                 b.waveunit = 'angstrom' if u2 == 'nm' else 'nm'          # (a factor 10: the common grid stays small)
             fresh = lentil.radiometry.Spectrum(np.array(b.wave, copy=True), np.array(b.value, copy=True), waveunit=b.waveunit, valueunit=None)
